@@ -36,6 +36,12 @@ CHECKS = {
    text="All operation sequences (quick: length<=4 over 7 keys and length<=5 over 5 keys; thorough: <=5 over 7 and <=6 over 4) where the keys are 3 identity classes that collide under the real hash (two distinct objects each) plus a non-colliding key; after every step At/Len/Keys/Iterate/KeysString are compared with a reference association list under types.Identical, including deletion during iteration. All ordered pairs of a 5.7k-type universe (duplicated objects, permuted interfaces/unions, renamed type parameters, separate instantiations): Identical => equal Hash, no panic.",
    note="Trusted: types.Identical; the reference list; pointer-valued hashes of named types make only structural collisions reproducible, so colliding keys are chosen among unnamed types.",
    design="§4 C19"),
+ "C12": dict(
+   category="exploration",
+   technique="bounded exhaustive enumeration of position-less syntax trees printed by the real forked formatter (through a verif-tagged hook) and of commented real builds; oracle = go/parser round trip + go/format fixed point + token adjacency of comments",
+   text="All expression trees of operator depth<=2 over the 19 binary and 7 prefix operators, depth-3 trees over one operator per precedence/gluing class, every expression node kind in every operand slot, ~900 statement/declaration forms (every header shape, labels, type-parameter lists incl. the [P *T] ambiguity, tags, embedded fields, unions), a fixed corpus of stripped standard-library files (30 packages quick / all of GOROOT/src thorough), and 6.5k real builds attaching comments (5 shapes x 20 statement kinds x 11 containers x 3 positions x once-flag) with the front-end protocol. The printed text must parse back to the same tree (up to parentheses/positions), be a go/format fixed point, and carry each comment exactly once directly before its statement.",
+   note="Trusted: go/parser, go/format, go/scanner 1.23.5; reflect-based tree comparison that ignores positions, parentheses, comments, resolution data. Trees the builder cannot hold are excluded and listed in DESIGN.md (dereference of a binary operation, bare empty statement).",
+   design="§4 C12"),
 }
 
 NOT_APPLICABLE = {
